@@ -9,11 +9,17 @@ from .values import (Top, GE2, Ref, ClassVal, FuncVal, BoundMeth, Builtin, Modul
                      SuperVal, AbsSeq, LenOf, SymLen, HObj, Exc, State, vkey)
 
 
+_UNS = []
+
+
 def _U():
-    from .absint import Unsupported
-    return Unsupported
+    if not _UNS:
+        from .absint import Unsupported
+        _UNS.append(Unsupported)
+    return _UNS[0]
 
 
+LIST_CAP = 3
 MUTATORS = {"append", "extend", "insert", "pop", "clear", "sort", "reverse", "remove", "update",
             "setdefault", "add", "discard"}
 PURE_STR_METHODS = {"strip", "lstrip", "rstrip", "lower", "upper", "startswith", "endswith", "format",
@@ -161,6 +167,8 @@ def call_bound(self, st, bm, args, kwargs, node):
         raise U("method %s on %s at %s" % (name, o.clsname(), self.loc(node)))
     if name.startswith("super."):
         return [(st, "val", None)]
+    if hasattr(recv, "abs_call"):
+        return recv.abs_call(self, st, name, args, kwargs, node)
     if isinstance(recv, str):
         return str_method(self, st, recv, name, args, kwargs, node)
     if isinstance(recv, (tuple, frozenset)):
@@ -202,20 +210,62 @@ def _plain(v):
 
 def list_method(self, st, ref, o, name, args, kwargs, node):
     U = _U()
+    if name in ("append", "extend", "insert") and "@sink" in o.fields:
+        return [(st, "val", None)]
+    if name == "append" and "@sat1" in o.fields:
+        o.count = 1
+        return [(st, "val", None)]
     if name == "append":
+        if o.items is not None and len(o.items) >= getattr(self, 'list_cap', LIST_CAP):
+            # widening: long concrete lists become abstract (length >= 2, elements unknown)
+            o.fields["@elem"] = o.items[-1]
+            o.items = None
+            o.count = GE2
         if o.items is not None:
             o.items.append(args[0])
         else:
             o.count = 1 if o.count == 0 else GE2
+            if "@noelem" not in o.fields:
+                o.fields["@elem"] = args[0]
         self.emit(st, ("append", ref.oid, o.label, args[0]))
         return [(st, "val", None)]
     if name == "extend":
-        if o.items is not None:
-            kind, seq = self.iter_values(st, args[0], node)
-            if kind == "concrete":
-                o.items.extend(seq)
+        self.emit(st, ("extend", ref.oid, o.label, args[0]))
+    if name == "extend" and "@sat1" in o.fields:
+        a0 = args[0]
+        grow = True
+        if isinstance(a0, Ref):
+            ao = st.obj(a0)
+            if ao.items is not None:
+                grow = len(ao.items) > 0
+            elif ao.base is None:
+                grow = ao.count != 0
             else:
-                o.items = None
+                grow = None
+        if grow is True:
+            o.count = 1
+        elif grow is None and o.count == 0:
+            o.base = "maybe-empty"
+        return [(st, "val", None)]
+    if name == "extend":
+        kind, seq = (None, None)
+        if not isinstance(args[0], Top):
+            kind, seq = self.iter_values(st, args[0], node)
+        if kind == "concrete" and o.items is not None and len(o.items) + len(seq) <= getattr(self, 'list_cap', LIST_CAP):
+            o.items.extend(seq)
+        elif kind == "concrete" and not seq:
+            pass
+        else:
+            nonempty = (kind == "concrete" and len(seq) > 0) or (o.items is not None and len(o.items) > 0) \
+                or (o.items is None and o.count != 0)
+            if isinstance(args[0], Ref):
+                ao = st.obj(args[0])
+                if ao.items is None and ao.count != 0:
+                    nonempty = True
+            o.items = None
+            if nonempty:
+                o.count = GE2 if o.count in (1, GE2) else 1
+            else:
                 o.base = o.base or ("ext@%s" % getattr(node, "lineno", 0))
         return [(st, "val", None)]
     if name == "insert":
@@ -311,7 +361,18 @@ def set_method(self, st, ref, o, name, args, kwargs, node):
             if not any(self.x_eq(st, x, args[0]) is True for x in o.items):
                 o.items.append(args[0])
         elif name in ("update",) and o.items is not None:
-            o.items = None
+            kind, seq = (None, None)
+            if args and not isinstance(args[0], Top):
+                try:
+                    kind, seq = self.iter_values(st, args[0], node)
+                except AnalysisError:
+                    kind = None
+            if kind == "concrete":
+                for x in seq:
+                    if not any(self.x_eq(st, x, y) is True for y in o.items):
+                        o.items.append(x)
+            else:
+                o.items = None
         return [(st, "val", None)]
     return [(st, "val", Top("set." + name))]
 
@@ -552,6 +613,9 @@ def x_isinstance(self, st, v, cls, node):
             if isinstance(c.cls, ClassInfo) and c.cls.name == v.cls:
                 return True
             if cn in ("Enum", "object"):
+                return True
+        elif hasattr(v, "abs_type"):
+            if cn in (v.abs_type, "object") or (v.abs_type == "str" and cn in ("unicode", "basestring")):
                 return True
         elif isinstance(v, bool):
             if cn in ("bool", "int", "object"):
